@@ -6,8 +6,12 @@ lives under `octave_mcp/` (all other code objects are DISABLEd at their first ev
 finished, it is preempted and the other thread runs.  Without switches the start thread runs to completion, then the other one
 (0 preemptions).  The explorer enumerates ALL schedules with <= p preemptions.
 
-The library uses no threading primitives and no import happens after warm-up, so a preempted thread never holds a real lock the
-other one needs; a watchdog turns a hang into a harness error.
+The library uses no threading primitives and no import happens after warm-up.  Its one real blocking primitive is the advisory
+directory lock of the write path (fcntl.flock, taken by every install since repo fix 1aa23ee): a preempted thread may hold it while the
+other thread asks for it, and a blocking flock() would park that thread inside the kernel WITH the baton - a deadlock made by the
+scheduler, not by the code.  Waiting is therefore made visible: during a scheduled run fcntl.flock is replaced by a non-blocking
+attempt that, when the lock is busy, hands the baton to the other thread (a forced switch, not counted as a preemption) and tries
+again when it gets the baton back.  A watchdog turns a real hang (both threads waiting) into a harness error.
 """
 from __future__ import annotations
 
@@ -93,6 +97,27 @@ def run_schedule(fns, start=0, switches=(), gran="line", timeout=120.0):
             else:
                 main.release()
 
+    import errno as _errno
+    import fcntl as _fcntl
+    real_flock = _fcntl.flock
+
+    def sched_flock(fd, op):
+        tid = tids.get(threading.get_ident())
+        if tid is None or (op & _fcntl.LOCK_NB) or not (op & (_fcntl.LOCK_EX | _fcntl.LOCK_SH)):
+            return real_flock(fd, op)
+        while True:
+            try:
+                return real_flock(fd, op | _fcntl.LOCK_NB)
+            except OSError as e:
+                if e.errno not in (_errno.EAGAIN, _errno.EACCES, _errno.EWOULDBLOCK):
+                    raise
+            other = 1 - tid
+            if done[other]:
+                return real_flock(fd, op)      # only another PROCESS can hold it now (forked workers share a directory): really wait
+            sems[other].release()      # blocked: the other thread must run (forced switch)
+            sems[tid].acquire()
+
+    _fcntl.flock = sched_flock
     if mon.get_tool(TOOL) is None:
         mon.use_tool_id(TOOL, "vt-threadsched")
     if gran in ("line", "line3"):
@@ -109,10 +134,12 @@ def run_schedule(fns, start=0, switches=(), gran="line", timeout=120.0):
     sems[start].release()
     if not main.acquire(timeout=timeout):
         mon.set_events(TOOL, 0)
+        _fcntl.flock = real_flock
         raise Hang(f"schedule start={start} switches={sorted(switches)} did not finish within {timeout}s (points so far {n})")
     for t in ths:
         t.join(timeout=5)
     mon.set_events(TOOL, 0)
+    _fcntl.flock = real_flock
     return results, n, taken
 
 
